@@ -36,6 +36,11 @@ type whoCfg struct {
 // storesToType lists the stores of f into fields of struct type T reached through a pointer that is not a local
 // variable of f (writes to a fresh local copy are not writes to shared storage).
 func storesToType(f *ssa.Function, T *types.Named, fields map[*types.Var]bool) []*ssa.Store {
+	return storesToTypeX(f, T, fields, true)
+}
+
+// storesToTypeX: with exemptFresh, stores into an element of a slice that the function has just copied are left out.
+func storesToTypeX(f *ssa.Function, T *types.Named, fields map[*types.Var]bool, exemptFresh bool) []*ssa.Store {
 	var out []*ssa.Store
 	for _, b := range f.Blocks {
 		for _, in := range b.Instrs {
@@ -53,7 +58,7 @@ func storesToType(f *ssa.Function, T *types.Named, fields map[*types.Var]bool) [
 			if al, ok := fa.X.(*ssa.Alloc); ok && !al.Heap {
 				continue
 			}
-			if ia, ok := fa.X.(*ssa.IndexAddr); ok && freshSlice(f, ia.X, st) {
+			if ia, ok := fa.X.(*ssa.IndexAddr); ok && exemptFresh && freshSlice(f, ia.X, st) {
 				continue // an element of a slice that the function has just copied (copy-on-write): not shared storage
 			}
 			out = append(out, st)
@@ -990,7 +995,7 @@ func ruleTrim(p *Prog, r *Report) {
 	// is there a trimming store at all (zero stored into an advance of a shared glyph)?
 	trims := false
 	for fn := range reachableFns(p, []*ssa.Function{ppl}) {
-		for _, st := range storesToType(fn, G, nil) {
+		for _, st := range storesToTypeX(fn, G, nil, false) {
 			if c, ok := st.Val.(*ssa.Const); ok && isZeroConst(c) {
 				trims = true
 			}
